@@ -27,13 +27,13 @@ def pool():
     box = A.polyhedron('box')
     tet = A.polyhedron('tetrahedron')
     P = []
-    P += [X.Pt(p) for p in ((0, 0, 0), (1, 0, 0), (1, H, 0), (H, Q, Q), (2, 1, 1), (3, 3, 3))]
+    P += [X.Pt(p) for p in ((0, 0, 0), (1, 0, 0), (1, H, 0), (H, Q, Q), (2, 1, 1), (3, 3, 3), (H, Q, 5 * Q))]   # the last one lies in the oblique face x+y+z=2
     P += [X.Ln((0, 0, 0), (1, 0, 0)), X.Ln((0, 0, 0), (2, 1, 1)), X.Ln((0, H, 0), (1, 0, 0)), X.Ln((H, Q, Q), (0, 0, 1)),
           X.Ln((1, 0, 0), (0, 1, 1)), X.Ln((5, 5, 5), (1, 0, 0))]
     P += [X.Hl((0, 0, 0), (1, 0, 0)), X.Hl((1, 0, 0), (-1, 0, 0)), X.Hl((H, Q, Q), (1, 1, 1)), X.Hl((3, 0, 0), (-1, 0, 0)),
           X.Hl((1, H, 0), (0, 0, 1)), X.Hl((1, H, -1), (0, 0, -1))]
     P += [X.Sg((0, 0, 0), (2, 0, 0)), X.Sg((0, 0, 0), (1, 0, 0)), X.Sg((1, 0, 0), (3, 0, 0)), X.Sg((0, 0, 0), (2, 1, 1)),
-          X.Sg((H, Q, Q), (H, Q, 2)), X.Sg((0, 0, 0), (0, 2, 0)), X.Sg((2, 0, 0), (0, 2, 0))]
+          X.Sg((H, Q, Q), (H, Q, 2)), X.Sg((0, 0, 0), (0, 2, 0)), X.Sg((2, 0, 0), (0, 2, 0)), X.Sg((1, H, H), (Q, Q, 3 * H))]   # last: inside the oblique face
     P += [X.Pl((0, 0, 0), (0, 0, 1)), X.Pl((1, 0, 0), (1, 0, 0)), X.Pl((2, 0, 0), (1, 1, 1)), X.Pl((1, 0, 0), (1, 1, 1)),
           X.Pl((0, H, 0), (0, 1, 0)), X.Pl((0, 0, 2), (0, 0, 1))]
     P += [X.Pg(((0, 0, 0), (2, 0, 0), (2, 1, 0), (0, 1, 0))), X.Pg(((0, 0, 0), (2, 0, 0), (0, 2, 0))),
